@@ -11,7 +11,7 @@ import os
 from collections import Counter
 from typing import Any
 
-from .. import core, escommon, decomp_common as dc
+from .. import core, escommon, decomp_common as dc, decomp_front as dfr
 from ..gen.programs import Cfg
 
 MODULES = ["ESV.Props.C01"]
@@ -234,6 +234,7 @@ def run(run: core.Run) -> int:
             s_["twice"] = i % 6 == 5     # every sixth set: the answer of a second convert() of the same decompiler object
         results = dc.pipeline_all(pool, sets, timeout=30, single_timeout=8)
         fails, cnt = evaluate(sets, results, drv, jobs)
+        front = dfr.front_channels(run, pool, drv, sets, jobs)
         n_viol = 0
         shape_cnt: Counter = Counter()
         kind_cnt: Counter = Counter()
@@ -267,7 +268,7 @@ def run(run: core.Run) -> int:
     cov = {
         "programs": len(sets), "disagreements_checked": n_viol,
         "samples": [{"rs": s["rs"], "decompiled": r["dec"].get("text")} for s, r in list(zip(sets, results))[:2]],
-        "outcomes": dict(cnt), "input_shapes": dict(shape_cnt), "failure_kinds": dict(kind_cnt),
+        "front_phases": front, "outcomes": dict(cnt), "input_shapes": dict(shape_cnt), "failure_kinds": dict(kind_cnt),
         "inputs_per_known_finding_class": dict(class_cnt),   # 'none:unclassified' = inputs on which every failure is a VIOLATION
         "evaluations": len(sets), "distinct_nontrivial": core.distinct(s["rs"]["ops"] for s in sets),
         "rule": "routine sets = real compiler output of generated programs (reader-shaped: numeric dungeon modes and flags), filtered to sets without Jump-only cycles; mostly label-free structured control flow (ifs, switches with fall-through, loops, message switches, with-blocks, coroutines), a share with user labels/jump/call incl. cross-routine jumps",
